@@ -138,7 +138,7 @@ def random_history(rng, name, n):
         if k < 5:
             a = attrs[int(rng.integers(0, len(attrs)))]
             if a == 'data':
-                ops.append(('set', 'data', ['r0', 'r1', 'c0', 'c1'][int(rng.integers(0, 4))]))
+                ops.append(('set', 'data', ['r0', 'r1', 'c0', 'c1', 'r0', 'r1', 'c0', 'c1', 'r0p', 'c0p', 'r0t', 'r0u', 'c0t', 'c0u'][int(rng.integers(0, 14))]))
             else:
                 v = tabs[a][int(rng.integers(0, len(tabs[a])))]
                 ops.append(('set', a, v))
@@ -176,6 +176,13 @@ def revisit_histories(name, did):
             out.append([('read',), a, ('read',), b, back])
             out.append([a, ('read',), back, b, a])
             out.append([('read',), a, b, ('read',), back, ('conv', 'twosided')])
+    # the data replaced by a record that a tolerance-based comparison cannot tell from the old one
+    for d1, d2 in R.CLOSE_PAIRS:
+        if d1 == did:
+            out.append([('read',), ('set', 'data', d2)])
+            out.append([('read',), ('set', 'data', d2), ('conv', 'twosided')])
+        out.append([('set', 'data', d1), ('read',), ('set', 'data', d2)])
+        out.append([('set', 'data', d2), ('read',), ('set', 'data', d1), ('read',), ('set', 'data', d2)])
     return out
 
 
@@ -357,7 +364,11 @@ def run(ctx):
         for did in ('r0', 'c0'):
             H = revisit_histories(name, did)
             if ctx.tier == 'quick':
-                H = [H[int(i)] for i in rng.choice(len(H), size=min(len(H), 40), replace=False)]
+                nclose = 4 * len(R.CLOSE_PAIRS) + 0
+                tail = [h for h in H if any(o[0] == 'set' and o[1] == 'data' and o[2] in ('r0p', 'c0p', 'r0t', 'r0u', 'c0t', 'c0u') for o in h)]
+                head = [h for h in H if h not in tail]
+                H = [head[int(i)] for i in rng.choice(len(head), size=min(len(head), 40), replace=False)] + \
+                    [tail[int(i)] for i in rng.choice(len(tail), size=min(len(tail), 6), replace=False)]
             for ops in H:
                 rjobs.append((name, did, ops)); nrev += 1
     ctx.count('revisit_histories', nrev)
